@@ -68,8 +68,15 @@ def run_patch(pid, patch):
 def run(pid, only=None, jobs=8):
     p = os.path.join(V, "mutants", pid + ".json")
     if not os.path.exists(p):
-        return []
+        open(p, "w").write("[]")
     ms = json.load(open(p))
+    # behaviour-preserving rewrites shared by several properties: every listed property must stay silent on them
+    ep = os.path.join(V, "mutants", "EQUIV.json")
+    if os.path.exists(ep):
+        for e in json.load(open(ep)):
+            if pid in e.get("props", ()):
+                e = dict(e, equivalent=True, expect=[])
+                ms.append(e)
     if only:
         ms = [m for m in ms if m["id"] in only]
     with ThreadPoolExecutor(max_workers=jobs) as ex:
